@@ -3,6 +3,7 @@ import GitSizer.Driver.Human
 import GitSizer.Driver.Parsers
 import GitSizer.Driver.Config
 import GitSizer.Driver.Refs
+import GitSizer.Driver.Regex
 import GitSizer.Driver.Graph
 import GitSizer.Driver.Output
 import GitSizer.Driver.Meter
@@ -21,6 +22,7 @@ def engineOf (name : String) : Option Engine :=
   | "config" => some configEngine
   | "confige2e" => some configE2EEngine
   | "refs" => some refsEngine
+  | "regex" => some regexEngine
   | "graph" => some graphEngine
   | "output" => some outputEngine
   | "meter" => some meterEngine
